@@ -10,6 +10,7 @@ import (
 	"os"
 	"reflect"
 	"runtime/debug"
+	"sort"
 	"strings"
 	"time"
 
@@ -371,6 +372,15 @@ func setToZero(fv reflect.Value) bool {
 // slices and arrays (their fields are not pointerified, so "written" and "zero"
 // can coincide) one element in four becomes the zero element, and otherwise one
 // scalar field in four is set to the zero value of its type.
+func scalarKind(k reflect.Kind) bool {
+	switch k {
+	case reflect.Bool, reflect.String, reflect.Int, reflect.Int8, reflect.Int16, reflect.Int32, reflect.Int64,
+		reflect.Uint, reflect.Uint8, reflect.Uint16, reflect.Uint32, reflect.Uint64, reflect.Float32, reflect.Float64:
+		return true
+	}
+	return false
+}
+
 func zeroInElems(r *coqfmt.Rng, v reflect.Value, inElem bool) int {
 	n := 0
 	t := v.Type()
@@ -382,7 +392,30 @@ func zeroInElems(r *coqfmt.Rng, v reflect.Value, inElem bool) int {
 		if !v.IsNil() {
 			n += zeroInElems(r, v.Elem(), inElem)
 		}
+	case reflect.Map:
+		// one entry in four of a map of scalars holds the zero value (the entry is
+		// written all the same); keys in a fixed order, the case stays reproducible
+		if !scalarKind(t.Elem().Kind()) || v.IsNil() {
+			return 0
+		}
+		keys := v.MapKeys()
+		sort.Slice(keys, func(i, j int) bool { return fmt.Sprint(keys[i].Interface()) < fmt.Sprint(keys[j].Interface()) })
+		for _, k := range keys {
+			if r.Chance(1, 4) {
+				v.SetMapIndex(k, reflect.Zero(t.Elem()))
+				n++
+			}
+		}
 	case reflect.Slice, reflect.Array:
+		if scalarKind(t.Elem().Kind()) {
+			for i := 0; i < v.Len(); i++ {
+				if v.Index(i).CanSet() && r.Chance(1, 6) {
+					v.Index(i).Set(reflect.Zero(t.Elem()))
+					n++
+				}
+			}
+			return n
+		}
 		if t.Elem().Kind() != reflect.Struct || t.Elem() == rty.TTUp() || t.Elem() == rty.TTUv() {
 			return 0
 		}
